@@ -13,10 +13,11 @@ void pbt_warmup() {}
 using namespace pbt;
 
 namespace {
-const int NE = 3, NL = 4, NS = 3, NK = 2;  // emitters, listeners, signals per emitter, slots per signal kind per listener
+const int NE = 3, NL = 4, NS = 10, NK = 2;  // emitters, listeners, signals per emitter, slots per signal kind per listener
 // Signals 0 (sigA) and 2 (sigC) have the same signature and take the same slot functions (slotA0/slotA1): one slot of one listener can
 // be connected to two signals of one emitter, and a disconnect must then name the signal as well. Signal 1 (sigB) carries an int.
-inline int slotType(int s) { return s == 1 ? 1 : 0; }
+// Signals 3..9 carry 2..8 int arguments (x, x+1, ...): every emit() overload of the library is a separate copy of the loop.
+inline int slotType(int s) { return s == 1 ? 1 : s >= 3 ? s - 1 : 0; }   // 0 void(), 1 (int), 2..8 that many ints
 
 struct H;  // harness state
 H* g = nullptr;
@@ -25,12 +26,27 @@ struct Em : public Callback::Emitter {
   void fireA() { emit(&Em::sigA); }
   void fireB(int x) { emit(&Em::sigB, x); }
   void fireC() { emit(&Em::sigC); }
+  void sig2(int, int) {}
+  void fire2(int x) { emit(&Em::sig2, x, x + 1); }
+  void sig3(int, int, int) {}
+  void fire3(int x) { emit(&Em::sig3, x, x + 1, x + 2); }
+  void sig4(int, int, int, int) {}
+  void fire4(int x) { emit(&Em::sig4, x, x + 1, x + 2, x + 3); }
+  void sig5(int, int, int, int, int) {}
+  void fire5(int x) { emit(&Em::sig5, x, x + 1, x + 2, x + 3, x + 4); }
+  void sig6(int, int, int, int, int, int) {}
+  void fire6(int x) { emit(&Em::sig6, x, x + 1, x + 2, x + 3, x + 4, x + 5); }
+  void sig7(int, int, int, int, int, int, int) {}
+  void fire7(int x) { emit(&Em::sig7, x, x + 1, x + 2, x + 3, x + 4, x + 5, x + 6); }
+  void sig8(int, int, int, int, int, int, int, int) {}
+  void fire8(int x) { emit(&Em::sig8, x, x + 1, x + 2, x + 3, x + 4, x + 5, x + 6, x + 7); }
   void sigC() {}
   void sigA() {}
   void sigB(int) {}
 };
 struct Li : public Callback::Listener {
   void slotA0(); void slotA1(); void slotB0(int); void slotB1(int);
+  void s2_0(int a0, int a1); void s2_1(int a0, int a1); void s3_0(int a0, int a1, int a2); void s3_1(int a0, int a1, int a2); void s4_0(int a0, int a1, int a2, int a3); void s4_1(int a0, int a1, int a2, int a3); void s5_0(int a0, int a1, int a2, int a3, int a4); void s5_1(int a0, int a1, int a2, int a3, int a4); void s6_0(int a0, int a1, int a2, int a3, int a4, int a5); void s6_1(int a0, int a1, int a2, int a3, int a4, int a5); void s7_0(int a0, int a1, int a2, int a3, int a4, int a5, int a6); void s7_1(int a0, int a1, int a2, int a3, int a4, int a5, int a6); void s8_0(int a0, int a1, int a2, int a3, int a4, int a5, int a6, int a7); void s8_1(int a0, int a1, int a2, int a3, int a4, int a5, int a6, int a7);
 };
 
 struct Rec { int l, k; int state; };  // state 0 connected, 1 pending, 2 gone
@@ -53,9 +69,18 @@ struct H {
   void purge(int e, int s) { auto& v = recs[e][s]; for (size_t i = 0; i < v.size();) { if (v[i].state == 2) v.erase(v.begin() + (long)i); else { v[i].state = 0; ++i; } } }
 
   void doConnect(int e, int s, int l, int k) {
-    if (!em[e] || !li[l] || hasLive(e, s, l, k)) { ctx->count("skipped"); return; }
+    int dup = 0; for (auto& r : recs[e][s]) if (r.l == l && r.k == k && r.state != 2) ++dup;
+    if (!em[e] || !li[l] || dup >= 3) { ctx->count("skipped"); return; }
+    if (dup) ctx->label(dup >= 2 ? "connected_three_times" : "connected_twice");
     if (s == 0) { if (k == 0) Callback::connect(em[e], &Em::sigA, li[l], &Li::slotA0); else Callback::connect(em[e], &Em::sigA, li[l], &Li::slotA1); }
     else if (s == 2) { if (k == 0) Callback::connect(em[e], &Em::sigC, li[l], &Li::slotA0); else Callback::connect(em[e], &Em::sigC, li[l], &Li::slotA1); if (hasLive(e, 0, l, k)) ctx->label("slot_connected_to_two_signals"); }
+    else if (s == 3) { if (k == 0) Callback::connect(em[e], &Em::sig2, li[l], &Li::s2_0); else Callback::connect(em[e], &Em::sig2, li[l], &Li::s2_1); }
+    else if (s == 4) { if (k == 0) Callback::connect(em[e], &Em::sig3, li[l], &Li::s3_0); else Callback::connect(em[e], &Em::sig3, li[l], &Li::s3_1); }
+    else if (s == 5) { if (k == 0) Callback::connect(em[e], &Em::sig4, li[l], &Li::s4_0); else Callback::connect(em[e], &Em::sig4, li[l], &Li::s4_1); }
+    else if (s == 6) { if (k == 0) Callback::connect(em[e], &Em::sig5, li[l], &Li::s5_0); else Callback::connect(em[e], &Em::sig5, li[l], &Li::s5_1); }
+    else if (s == 7) { if (k == 0) Callback::connect(em[e], &Em::sig6, li[l], &Li::s6_0); else Callback::connect(em[e], &Em::sig6, li[l], &Li::s6_1); }
+    else if (s == 8) { if (k == 0) Callback::connect(em[e], &Em::sig7, li[l], &Li::s7_0); else Callback::connect(em[e], &Em::sig7, li[l], &Li::s7_1); }
+    else if (s == 9) { if (k == 0) Callback::connect(em[e], &Em::sig8, li[l], &Li::s8_0); else Callback::connect(em[e], &Em::sig8, li[l], &Li::s8_1); }
     else { if (k == 0) Callback::connect(em[e], &Em::sigB, li[l], &Li::slotB0); else Callback::connect(em[e], &Em::sigB, li[l], &Li::slotB1); }
     { LedgerPause lp; recs[e][s].push_back(Rec{l, k, depth[e][s] > 0 ? 1 : 0}); }
     if (depth[e][s] > 0) ctx->label("connect_during_emission_of_same_signal");
@@ -67,6 +92,13 @@ struct H {
     if (slotType(s) == 0 && hasLive(e, 2 - s, l, k)) ctx->label(live ? "disconnect_one_of_two_signals" : "disconnect_unconnected_signal_of_connected_slot");
     if (s == 0) { if (k == 0) Callback::disconnect(em[e], &Em::sigA, li[l], &Li::slotA0); else Callback::disconnect(em[e], &Em::sigA, li[l], &Li::slotA1); }
     else if (s == 2) { if (k == 0) Callback::disconnect(em[e], &Em::sigC, li[l], &Li::slotA0); else Callback::disconnect(em[e], &Em::sigC, li[l], &Li::slotA1); }
+    else if (s == 3) { if (k == 0) Callback::disconnect(em[e], &Em::sig2, li[l], &Li::s2_0); else Callback::disconnect(em[e], &Em::sig2, li[l], &Li::s2_1); }
+    else if (s == 4) { if (k == 0) Callback::disconnect(em[e], &Em::sig3, li[l], &Li::s3_0); else Callback::disconnect(em[e], &Em::sig3, li[l], &Li::s3_1); }
+    else if (s == 5) { if (k == 0) Callback::disconnect(em[e], &Em::sig4, li[l], &Li::s4_0); else Callback::disconnect(em[e], &Em::sig4, li[l], &Li::s4_1); }
+    else if (s == 6) { if (k == 0) Callback::disconnect(em[e], &Em::sig5, li[l], &Li::s5_0); else Callback::disconnect(em[e], &Em::sig5, li[l], &Li::s5_1); }
+    else if (s == 7) { if (k == 0) Callback::disconnect(em[e], &Em::sig6, li[l], &Li::s6_0); else Callback::disconnect(em[e], &Em::sig6, li[l], &Li::s6_1); }
+    else if (s == 8) { if (k == 0) Callback::disconnect(em[e], &Em::sig7, li[l], &Li::s7_0); else Callback::disconnect(em[e], &Em::sig7, li[l], &Li::s7_1); }
+    else if (s == 9) { if (k == 0) Callback::disconnect(em[e], &Em::sig8, li[l], &Li::s8_0); else Callback::disconnect(em[e], &Em::sig8, li[l], &Li::s8_1); }
     else { if (k == 0) Callback::disconnect(em[e], &Em::sigB, li[l], &Li::slotB0); else Callback::disconnect(em[e], &Em::sigB, li[l], &Li::slotB1); }
     if (!live) { ctx->label("disconnect_not_connected"); return; }
     auto& v = recs[e][s];
@@ -83,7 +115,7 @@ struct H {
     { LedgerPause lp; frames.push_back(Frame{e, s, 0, false, arg}); }
     depth[e][s]++;
     Em* target = em[e];
-    if (s == 0) target->fireA(); else if (s == 2) target->fireC(); else target->fireB(arg);
+    if (s == 0) target->fireA(); else if (s == 2) target->fireC(); else if (s == 3) target->fire2(arg); else if (s == 4) target->fire3(arg); else if (s == 5) target->fire4(arg); else if (s == 6) target->fire5(arg); else if (s == 7) target->fire6(arg); else if (s == 8) target->fire7(arg); else if (s == 9) target->fire8(arg); else target->fireB(arg);
     Frame f = frames.back(); frames.pop_back();
     if (!f.dead) {
       // every record that is connected now and not yet visited should have been called
@@ -119,7 +151,7 @@ struct H {
     Frame& f = frames.back();
     if (f.dead) { char d[160]; snprintf(d, sizeof d, "l%d.slot%c%d invoked by an emission of destroyed emitter e%d", l, 'A' + s, k, f.e); ctx->fail("call-after-emitter-destroyed", d); }
     if (slotType(f.s) != s) ctx->fail("unexpected-call", "slot of a signal with the other signature invoked");
-    if (s == 1 && arg != f.arg) ctx->fail("wrong-argument", "signal argument differs");
+    if (s >= 1 && arg != f.arg) ctx->fail("wrong-argument", "signal argument differs");
     auto& v = recs[f.e][f.s];
     size_t i = f.cursor; while (i < v.size() && v[i].state != 0) ++i;
     if (i >= v.size() || v[i].l != l || v[i].k != k) {
@@ -149,6 +181,20 @@ void Li::slotA0() { g->onSlot(this, 0, 0, 0); }
 void Li::slotA1() { g->onSlot(this, 0, 1, 0); }
 void Li::slotB0(int x) { g->onSlot(this, 1, 0, x); }
 void Li::slotB1(int x) { g->onSlot(this, 1, 1, x); }
+void Li::s2_0(int a0, int a1) { if (!(a1 == a0 + 1)) g->ctx->fail("wrong-argument", "an argument of a 2-argument signal arrived changed"); g->onSlot(this, 2, 0, a0); }
+void Li::s2_1(int a0, int a1) { if (!(a1 == a0 + 1)) g->ctx->fail("wrong-argument", "an argument of a 2-argument signal arrived changed"); g->onSlot(this, 2, 1, a0); }
+void Li::s3_0(int a0, int a1, int a2) { if (!(a1 == a0 + 1 && a2 == a0 + 2)) g->ctx->fail("wrong-argument", "an argument of a 3-argument signal arrived changed"); g->onSlot(this, 3, 0, a0); }
+void Li::s3_1(int a0, int a1, int a2) { if (!(a1 == a0 + 1 && a2 == a0 + 2)) g->ctx->fail("wrong-argument", "an argument of a 3-argument signal arrived changed"); g->onSlot(this, 3, 1, a0); }
+void Li::s4_0(int a0, int a1, int a2, int a3) { if (!(a1 == a0 + 1 && a2 == a0 + 2 && a3 == a0 + 3)) g->ctx->fail("wrong-argument", "an argument of a 4-argument signal arrived changed"); g->onSlot(this, 4, 0, a0); }
+void Li::s4_1(int a0, int a1, int a2, int a3) { if (!(a1 == a0 + 1 && a2 == a0 + 2 && a3 == a0 + 3)) g->ctx->fail("wrong-argument", "an argument of a 4-argument signal arrived changed"); g->onSlot(this, 4, 1, a0); }
+void Li::s5_0(int a0, int a1, int a2, int a3, int a4) { if (!(a1 == a0 + 1 && a2 == a0 + 2 && a3 == a0 + 3 && a4 == a0 + 4)) g->ctx->fail("wrong-argument", "an argument of a 5-argument signal arrived changed"); g->onSlot(this, 5, 0, a0); }
+void Li::s5_1(int a0, int a1, int a2, int a3, int a4) { if (!(a1 == a0 + 1 && a2 == a0 + 2 && a3 == a0 + 3 && a4 == a0 + 4)) g->ctx->fail("wrong-argument", "an argument of a 5-argument signal arrived changed"); g->onSlot(this, 5, 1, a0); }
+void Li::s6_0(int a0, int a1, int a2, int a3, int a4, int a5) { if (!(a1 == a0 + 1 && a2 == a0 + 2 && a3 == a0 + 3 && a4 == a0 + 4 && a5 == a0 + 5)) g->ctx->fail("wrong-argument", "an argument of a 6-argument signal arrived changed"); g->onSlot(this, 6, 0, a0); }
+void Li::s6_1(int a0, int a1, int a2, int a3, int a4, int a5) { if (!(a1 == a0 + 1 && a2 == a0 + 2 && a3 == a0 + 3 && a4 == a0 + 4 && a5 == a0 + 5)) g->ctx->fail("wrong-argument", "an argument of a 6-argument signal arrived changed"); g->onSlot(this, 6, 1, a0); }
+void Li::s7_0(int a0, int a1, int a2, int a3, int a4, int a5, int a6) { if (!(a1 == a0 + 1 && a2 == a0 + 2 && a3 == a0 + 3 && a4 == a0 + 4 && a5 == a0 + 5 && a6 == a0 + 6)) g->ctx->fail("wrong-argument", "an argument of a 7-argument signal arrived changed"); g->onSlot(this, 7, 0, a0); }
+void Li::s7_1(int a0, int a1, int a2, int a3, int a4, int a5, int a6) { if (!(a1 == a0 + 1 && a2 == a0 + 2 && a3 == a0 + 3 && a4 == a0 + 4 && a5 == a0 + 5 && a6 == a0 + 6)) g->ctx->fail("wrong-argument", "an argument of a 7-argument signal arrived changed"); g->onSlot(this, 7, 1, a0); }
+void Li::s8_0(int a0, int a1, int a2, int a3, int a4, int a5, int a6, int a7) { if (!(a1 == a0 + 1 && a2 == a0 + 2 && a3 == a0 + 3 && a4 == a0 + 4 && a5 == a0 + 5 && a6 == a0 + 6 && a7 == a0 + 7)) g->ctx->fail("wrong-argument", "an argument of a 8-argument signal arrived changed"); g->onSlot(this, 8, 0, a0); }
+void Li::s8_1(int a0, int a1, int a2, int a3, int a4, int a5, int a6, int a7) { if (!(a1 == a0 + 1 && a2 == a0 + 2 && a3 == a0 + 3 && a4 == a0 + 4 && a5 == a0 + 5 && a6 == a0 + 6 && a7 == a0 + 7)) g->ctx->fail("wrong-argument", "an argument of a 8-argument signal arrived changed"); g->onSlot(this, 8, 1, a0); }
 }  // namespace
 
 void pbt_generate(Rng& r, int size, Case& c) {
